@@ -432,11 +432,19 @@ func (s *controlledSelector) HandleSuccessResponse(
 	pair.state = CandidatePairStateSucceeded
 	s.log.Tracef("Found valid candidate pair: %s", pair)
 	if pair.nominateOnBindingSuccess {
-		if selectedPair := s.agent.getSelectedPair(); selectedPair == nil ||
+		selectedPair := s.agent.getSelectedPair()
+		switch {
+		case pair.deferredNominationValue != nil:
+			// Renomination: the deferred nomination wins, whatever the priorities, as long as
+			// it is still the latest nomination value that was accepted.
+			if selectedPair != pair && s.lastNomination != nil && *s.lastNomination == *pair.deferredNominationValue {
+				s.agent.setSelectedPair(pair)
+			}
+		case selectedPair == nil ||
 			(selectedPair != pair &&
-				(!s.agent.needsToCheckPriorityOnNominated() || selectedPair.priority() <= pair.priority())) {
+				(!s.agent.needsToCheckPriorityOnNominated() || selectedPair.priority() <= pair.priority())):
 			s.agent.setSelectedPair(pair)
-		} else if selectedPair != pair {
+		case selectedPair != pair:
 			s.log.Tracef("Ignore nominate new pair %s, already nominated pair %s", pair, selectedPair)
 		}
 	}
@@ -499,6 +507,7 @@ func (s *controlledSelector) HandleBindingRequest(message *stun.Message, local, 
 			// candidate pair state to Failed, and set the checklist state to
 			// Failed.
 			pair.nominateOnBindingSuccess = true
+			pair.deferredNominationValue = nominationValue
 		}
 	}
 
